@@ -5,3 +5,4 @@ import Dasp.Props.C12
 import Dasp.Props.C13
 import Dasp.Props.C09
 import Dasp.Props.C14
+import Dasp.Props.C20
